@@ -23,10 +23,10 @@ from vf.oracle import conn, faces as F, sph
 
 ID = "C09"
 RULE = (
-    "grids {mixed 3..6-gon patch, cube, prism, antimeridian strip, pyramid shipping its own (reversed) edge table} x selections {isel(n_face=S) for every non-empty "
+    "grids {mixed 3..6-gon patch, cube, prism, antimeridian strip, pyramid shipping its own (reversed) edge table, pyramid read from an MPAS source (metres, supplied tables)} x selections {isel(n_face=S) for every non-empty "
     "subset S (sorted, reversed, scalar, single, all); isel(n_node=S), isel(n_edge=S) for |S|<=2 and all; bounding_box over a lattice incl. antimeridian-spanning boxes; "
     "bounding_circle over centres x radii; nearest_neighbor for every k; x element kinds; constant_latitude for every node latitude, every midpoint between consecutive "
-    "node latitudes and +-1e-9 next to node latitudes} x prior histories of the source {none, every set of <= k of 8 derived variables, saturated} x data {face, node, "
+    "node latitudes and +-1e-9 next to node latitudes} x prior histories of the source {none, every set of <= k of (8 derived variables + 3 earlier selections on the same source: cross-section, isel, nearest neighbour), saturated} x data {face, node, "
     "edge identity fields, leading dims (), (2)}. non-trivial = selection that drops at least one face and keeps at least one; distinct = (grid, history, selection)"
 )
 ASSUMPTIONS = [
@@ -38,13 +38,13 @@ ASSUMPTIONS = [
     "native numba thread interleavings are not controllable: they are covered as configurations (thread counts x layers) and by exhaustive iteration-order exploration of the kernel's Python body with footprint-based independence",
 ]
 BOUNDS = {
-    "quick": "3 grids, histories: none + singles + saturated, subsets of <= 6 faces, iteration orders for n_edge <= 6 (720 orders)",
-    "thorough": "5 grids, histories: none + singles + pairs + saturated, iteration orders n_edge <= 7 (5040) and block partitions on larger grids",
+    "quick": "4 grids (one read from an MPAS source: coordinates in metres, supplied tables), histories over 8 derived variables + 3 earlier selections on the same source (cross-section, isel, nearest neighbour): none + singles + saturated, subsets of <= 6 faces, iteration orders for n_edge <= 6 (720 orders)",
+    "thorough": "6 grids, histories: none + singles + pairs + saturated, iteration orders n_edge <= 7 (5040) and block partitions on larger grids",
 }
 MATS = ["edge_node_connectivity", "face_edge_connectivity", "edge_face_connectivity", "node_face_connectivity", "face_lon", "edge_lon", "node_x", "face_areas"]
 SAT = MATS + ["face_face_connectivity", "edge_node_distances", "edge_face_distances", "bounds", "hole_edge_indices", "n_nodes_per_face", "edge_node_z"]
-GRIDS_Q = ["mixedpatch", "cube", "ships:pyr5"]
-GRIDS_T = GRIDS_Q + ["amstrip", "prism", "mpas:pyr5"]
+GRIDS_Q = ["mixedpatch", "cube", "ships:pyr5", "mpas:pyr5"]
+GRIDS_T = GRIDS_Q + ["amstrip", "prism"]
 
 
 def _grid(name):
@@ -65,13 +65,37 @@ def _grid(name):
     return build.grid(m), m
 
 
+PRIOR = ["sel:xsec", "sel:isel", "sel:nn"]  # earlier selections on the same source (they materialise / touch derived variables too)
+
+
 def _histories(k):
     out = [("none", [])]
     for r in range(1, k + 1):
-        for c in itertools.combinations(MATS, r):
+        for c in itertools.combinations(MATS + PRIOR, r):
             out.append(("+".join(c), list(c)))
-    out.append(("saturated", SAT))
+    out.append(("saturated", SAT + PRIOR))
     return out
+
+
+def _mid_lat(m):
+    la = np.unique(np.round(m.lonlat()[1], 6))
+    la = la[(la > -89) & (la < 89)]
+    return float((la[len(la) // 2 - 1] + la[len(la) // 2]) / 2) if len(la) > 1 else float(la[0]) + 0.25
+
+
+def _do(g, a, m):
+    """one history step on the source grid"""
+    if a == "sel:xsec":
+        try:
+            g.cross_section.constant_latitude(_mid_lat(m))
+        except ValueError:
+            pass  # no face crosses that parallel
+    elif a == "sel:isel":
+        g.isel(n_face=[0])
+    elif a == "sel:nn":
+        g.subset.nearest_neighbor((10.0, 5.0), k=1, element="nodes")
+    else:
+        getattr(g, a)
 
 
 # ----------------------------------------------------------------------------- selections
@@ -433,7 +457,7 @@ def _run_select(case, res):
         g, _ = _grid(gname)
         try:
             for a in hist:
-                getattr(g, a)
+                _do(g, a, m)
         except Exception as e:
             bad("c09:history-raises:%s" % type(e).__name__, repr(e))
             continue
@@ -468,7 +492,7 @@ def _run_select(case, res):
             pool.fresh()
             g2, _ = _grid(gname)
             for a in hist:
-                getattr(g2, a)
+                _do(g2, a, m)
             judge_data(gname, m, sel, g2, bad)
             res["transitions"] += 6
     res["axes"] = {"grid": {gname: res["evaluations"]}, "history": {hname if len(hname) < 40 else hname[:40]: res["evaluations"]}, "selection_kind": kinds}
